@@ -1031,6 +1031,16 @@ class ExecBase:
             del self.pending[npend:]
             self.assumptions.add(f"comprehension at line {node.lineno}: element expression assumed not to raise")
         R = fresh("comp", ListS)
+        ind = self.opts.get("independent_of")
+        if ind is not None and hasattr(self, "ind_setup"):
+            # non-interference: the result list is a fresh constant tied to its inputs only through assumptions, so its dependence has to be
+            # carried explicitly — it is source-dependent unless every element (and the filter) is independent modulo declassification.
+            # (The LENGTH of the result may still vary with the source list; that is accepted and stated in the contract notes.)
+            indep = self.ind_setup(ind, node)
+            dep = not z3.is_true(z3.simplify(indep(elt))) or (bool(g.ifs) and not z3.is_true(z3.simplify(indep(cond))))
+            if dep and getattr(self, "ind_sources", None):
+                es = [e_ for _n, e_ in self.ind_sources]
+                R = z3.Function("dep.comp", ListS, *[e_.sort() for e_ in es], ListS)(R, *es)
         if self.opts.get("abstract_comprehensions"):
             return self.mk_list(st, Val("l", R))  # slicing mode: the comprehension result is an unknown list
         n = z3.Length(xs)
